@@ -99,6 +99,12 @@ def simple_get_restriction_tag(document, cls):
     if extends is None:
         return
 
+    # a customization that was not given a name is not published. what it adds
+    # is among the attributes of this class all the same.
+    while extends.__type_name__ is ModelBase.Empty \
+                                         and extends.__extends__ is not None:
+        extends = extends.__extends__
+
     simple_type = etree.Element(XSD('simpleType'))
 
     simple_type.set('name', cls.get_type_name())
